@@ -1,7 +1,7 @@
 import Kurbo.Shapes
 import Kurbo.Path
 /-! Hand-written model of the stroker (stroke.rs) for POLYLINE sources: `stroke_undashed` element loop, `do_join` (join-skip threshold,
-    bevel / miter / round, the inner-join pivot), `do_line`, `finish`, `finish_closed`, caps, `extend_reversed`, `round_join(_rev)`.
+    bevel / miter / round, the inner-join pivot), `do_line`, `finish`, `finish_closed`, caps, `extend_reversed`, `round_join(_rev)` (tolerance of round joins/caps = `join_thresh`).
     `QuadTo`/`CurveTo` sources go through curve fitting (`do_cubic` -> `fit_to_bezpath`), which is not modelled: the model answers `none`.
     C04. -/
 namespace Kurbo
@@ -27,26 +27,25 @@ structure StrokeCtx (K : Type) where
   last_tan : Vec2 K
   join_thresh : K
 
-/-- the tolerance of joins and caps (`// TODO: scale` in the crate) -/
-def strokeJoinTol : Rat := 1/1000
-
-/-- `Arc::to_cubic_beziers` composed with the affine map of `round_join` / `round_join_rev` -/
-def roundJoinWith (a : Affine K) (angle : K) : List (PathEl K) :=
+/-- `Arc::to_cubic_beziers(tolerance, …)` composed with the affine map of `round_join` / `round_join_rev`; `tolerance` is the
+    tolerance for the UNIT arc (the callers pass `join_thresh` = stroke tolerance / half width) -/
+def roundJoinWith (tolerance : K) (a : Affine K) (angle : K) : List (PathEl K) :=
   let arc : Arc K := { center := ⟨0, 0⟩, radii := ⟨1, 1⟩, start_angle := (Scalar.pi : K) - angle, sweep_angle := angle, x_rotation := (0 : K) }
-  (arc.append_iter (Scalar.ofRat strokeJoinTol : K)).filterMap fun
+  (arc.append_iter tolerance).filterMap fun
     | .CurveTo p1 p2 p3 => some (.CurveTo (a * p1) (a * p2) (a * p3))
     | _ => none
 
 /-- `round_join` -/
-def roundJoin (center : Point K) (norm : Vec2 K) (angle : K) : List (PathEl K) :=
-  roundJoinWith (Affine.new norm.x norm.y (-norm.y) norm.x center.x center.y) angle
+def roundJoin (tolerance : K) (center : Point K) (norm : Vec2 K) (angle : K) : List (PathEl K) :=
+  roundJoinWith tolerance (Affine.new norm.x norm.y (-norm.y) norm.x center.x center.y) angle
 
 /-- `round_join_rev` -/
-def roundJoinRev (center : Point K) (norm : Vec2 K) (angle : K) : List (PathEl K) :=
-  roundJoinWith (Affine.new norm.x norm.y norm.y (-norm.x) center.x center.y) angle
+def roundJoinRev (tolerance : K) (center : Point K) (norm : Vec2 K) (angle : K) : List (PathEl K) :=
+  roundJoinWith tolerance (Affine.new norm.x norm.y norm.y (-norm.x) center.x center.y) angle
 
 /-- `round_cap` -/
-def roundCap (center : Point K) (norm : Vec2 K) : List (PathEl K) := roundJoin center norm (Scalar.pi : K)
+def roundCap (tolerance : K) (center : Point K) (norm : Vec2 K) : List (PathEl K) :=
+  roundJoin tolerance center norm (Scalar.pi : K)
 
 /-- `square_cap` -/
 def squareCap (close : Bool) (center : Point K) (norm : Vec2 K) : List (PathEl K) :=
@@ -126,9 +125,9 @@ def StrokeCtx.do_join (c : StrokeCtx K) (style : StrokeStyle K) (tan0 : Vec2 K) 
         let angle := Scalar.atan2 cross dot
         let c := c.inner_join_pivot p0 cross
         if (0 : K) <. angle then
-          { c with backward_path := c.backward_path ++ [.LineTo (p0 + norm)], forward_path := c.forward_path ++ roundJoin p0 norm angle }
+          { c with backward_path := c.backward_path ++ [.LineTo (p0 + norm)], forward_path := c.forward_path ++ roundJoin c.join_thresh p0 norm angle }
         else
-          { c with forward_path := c.forward_path ++ [.LineTo (p0 - norm)], backward_path := c.backward_path ++ roundJoinRev p0 (-norm) (-angle) }
+          { c with forward_path := c.forward_path ++ [.LineTo (p0 - norm)], backward_path := c.backward_path ++ roundJoinRev c.join_thresh p0 (-norm) (-angle) }
     else c
 
 /-- `do_line` -/
@@ -146,12 +145,12 @@ def StrokeCtx.finish (c : StrokeCtx K) (style : StrokeStyle K) : Option (StrokeC
     let out := c.output ++ c.forward_path
     let out := out ++ (match style.end_cap with
       | 0 => [.LineTo return_p]
-      | 2 => roundCap c.last_pt d
+      | 2 => roundCap c.join_thresh c.last_pt d
       | _ => squareCap false c.last_pt d)
     let out := out ++ rev
     let out := out ++ (match style.start_cap with
       | 0 => [.ClosePath]
-      | 2 => roundCap c.start_pt c.start_norm
+      | 2 => roundCap c.join_thresh c.start_pt c.start_norm
       | _ => squareCap true c.start_pt c.start_norm)
     some { c with output := out, forward_path := [], backward_path := [] }
   | _, _ => none
